@@ -39,6 +39,7 @@ def docs_universe():
         {"01": 1, "0": [0]}, [[[]]], {"a": 1, "b": 2, "c": 3}, 5, None, True, {"+1": 1, "-1": 2},
         {"n": {"a": None}, "m": [None, {"x": None, "y": 0}], "z": None},
         {"a": {"k": 1}, "ab": {"x": 2}, "1": "x", "10": {"y": 0}, "user": {"id": 1}, "users": {}},     # names that are string prefixes of a sibling's name
+        {"tags": ["a", "b"], "s": "ab", "e": "", "l": [], "n": [["x", "y"], "xy"]},                      # strings next to the arrays of their characters
     ]
     return ds
 
@@ -49,7 +50,9 @@ def lookalikes(v):
     elif v is False: out += [0, 0.0]
     elif isinstance(v, int): out += [float(v), v == 1, v + 1, str(v)]
     elif isinstance(v, float): out += [int(v) if v == int(v) else v + 1]
-    elif isinstance(v, list): out += [[(True if x == 1 and x is not True else x) for x in v], v + [0], list(reversed(v))]
+    elif isinstance(v, list):
+        out += [[(True if x == 1 and x is not True else x) for x in v], v + [0], list(reversed(v))]
+        if all(isinstance(x, str) for x in v): out += ["".join(v)]
     elif isinstance(v, dict):
         out += [dict(reversed(list(v.items()))), {k: (False if x == 0 and x is not False else x) for k, x in v.items()}, {**v, "zz": 1}]
         if v:
@@ -57,7 +60,7 @@ def lookalikes(v):
             out += [{("zz" if k == k0 else k): x for k, x in v.items()},          # same size, one member renamed
                     {("zz" if k == k0 else k): (5 if k == k0 else x) for k, x in v.items()},
                     {k: (None if k == k0 else x) for k, x in v.items()}]
-    elif isinstance(v, str): out += [v + "x"]
+    elif isinstance(v, str): out += [v + "x", list(v), [v]]          # a string is not the array of its characters
     elif v is None: out += [False, 0]
     return out
 
